@@ -1,8 +1,14 @@
 /-
-C07 — property theorems (see DESIGN.md §7 C07). First theorems; the refinement
-theorems are being added.
+C07 — `ska merge`: `to_dict`, `extend`, `MergeSkaArray::new` refine column concatenation of the
+plain tables (see DESIGN.md §7 C07).
+
+Hypothesis note. `Arr.NoZero` (cells ≠ 0) is not enough for the refinement: `MergeSkaArray::new`
+writes `max(b, '-')`, so a stored byte in 1..44 would be rewritten to '-' by a merge
+(`T07_noZero_insufficient` below is a kernel-checked counterexample). The theorems are stated under
+`Arr.CellsGE` (every stored cell is ≥ 45 = '-'; all symbols `- A..Z a..z` are), which implies
+`NoZero` (`Arr.CellsGE.noZero`) and is re-established by every `MergeSkaArray::new`.
 -/
-import SkaModel.Spec.Abs
+import SkaModel.Lemmas.ExtendLemmas
 
 namespace SkaModel.Props.C07
 
@@ -16,5 +22,297 @@ theorem T07_refuse (d o : MDict) (h : o.k ≠ d.k ∨ o.rc ≠ d.rc) : ∃ e, d.
   · by_cases hk : o.k = d.k
     · exact ⟨.strand, by simp [hk, h]⟩
     · exact ⟨.kmerLen, by simp [hk]⟩
+
+/-! ### what `MergeSkaArray::new` guarantees for any well-formed dictionary -/
+
+/-- facts about `Arr.ofDict W d` bundled for the statements below -/
+structure GoodOutput (r : Arr) : Prop where
+  wf : r.WF
+  cellsGE : r.CellsGE
+  noZero : r.NoZero
+  counts : r.counts = r.variants.map (Arr.cellCount false)
+
+theorem goodOutput_ofDict (W : Nat) (d : MDict) (hd : d.WF) (hc : d.Cells) : GoodOutput (Arr.ofDict W d) :=
+  ⟨ofDict_wf_J W d hd, ofDict_cellsGE W d, (ofDict_cellsGE W d).noZero, ofDict_counts W d hc⟩
+
+/-! ### one `extend` -/
+
+/-- **T07_extend.** `a.to_dict().extend(b.to_dict())` succeeds and the array written from it is
+exactly (same row order) the column concatenation `a ++ b`: a key only in `a` gets `b.names.length`
+gaps appended, a key only in `b` gets `a.names.length` gaps prepended. -/
+theorem T07_extend (W : Nat) (a b : Arr) (ha : a.WF) (hb : b.WF) (hca : a.CellsGE) (hcb : b.CellsGE)
+    (hk : a.k = b.k) (hrc : a.rc = b.rc) :
+    ∃ d, a.toDict.extend b.toDict = .ok d
+      ∧ (Arr.ofDict W d).abs = a.abs.concat b.abs
+      ∧ GoodOutput (Arr.ofDict W d)
+      ∧ (Arr.ofDict W d).k = a.k ∧ (Arr.ofDict W d).rc = a.rc
+      ∧ (Arr.ofDict W d).names = a.names ++ b.names
+      ∧ (a.RowsPresent → b.RowsPresent → (Arr.ofDict W d).RowsPresent) := by
+  obtain ⟨d, hd, hwf, hk', hrc', hnames, habs, hcells⟩ :=
+    extend_refines a.toDict b.toDict (toDict_wf a ha) (toDict_wf b hb) hk.symm hrc.symm
+  rw [toDict_abs a ha hca, toDict_abs b hb hcb] at habs
+  have hout := goodOutput_ofDict W d hwf (hcells (toDict_cells a ha hca) (toDict_cells b hb hcb))
+  refine ⟨d, hd, by rw [ofDict_abs, habs], hout, hk', hrc', hnames, ?_⟩
+  intro hpa hpb
+  rw [Arr.rowsPresent_iff hout.wf.lenV, ofDict_abs, habs]
+  exact Table.concat_rowsPresent _ _ (Arr.abs_wf ha).2 (Arr.abs_wf hb).2
+    ((Arr.rowsPresent_iff ha.lenV).mp hpa) ((Arr.rowsPresent_iff hb.lenV).mp hpb)
+
+/-- the row-permutation form asked for in DESIGN.md -/
+theorem T07_extend_equiv (W : Nat) (a b : Arr) (ha : a.WF) (hb : b.WF) (hca : a.CellsGE) (hcb : b.CellsGE)
+    (hk : a.k = b.k) (hrc : a.rc = b.rc) :
+    ∃ d, a.toDict.extend b.toDict = .ok d ∧ (Arr.ofDict W d).abs.Equiv (a.abs.concat b.abs) := by
+  obtain ⟨d, h1, h2, _⟩ := T07_extend W a b ha hb hca hcb hk hrc
+  exact ⟨d, h1, Table.Equiv.of_eq h2⟩
+
+/-! ### `ska merge` on a list of files -/
+
+theorem foldlM_extend (rest : List Arr) (d : MDict) (hd : d.WF)
+    (hall : ∀ b ∈ rest, b.WF ∧ b.CellsGE ∧ b.k = d.k ∧ b.rc = d.rc) :
+    ∃ d', rest.foldlM (fun d a => d.extend a.toDict) d = .ok d' ∧ d'.WF ∧ d'.k = d.k ∧ d'.rc = d.rc
+      ∧ d'.abs = (rest.map Arr.abs).foldl Table.concat d.abs ∧ (d.Cells → d'.Cells) := by
+  induction rest generalizing d with
+  | nil => exact ⟨d, rfl, hd, rfl, rfl, rfl, id⟩
+  | cons b rest ih =>
+    obtain ⟨hbwf, hbc, hbk, hbrc⟩ := hall b (List.mem_cons_self ..)
+    obtain ⟨d1, h1, hwf1, hk1, hrc1, _, habs1, hcells1⟩ :=
+      extend_refines d b.toDict hd (toDict_wf b hbwf) hbk hbrc
+    rw [toDict_abs b hbwf hbc] at habs1
+    obtain ⟨d', h', hwf', hk', hrc', habs', hcells'⟩ := ih d1 hwf1 (by
+      intro c hc
+      obtain ⟨x1, x2, x3, x4⟩ := hall c (List.mem_cons_of_mem _ hc)
+      exact ⟨x1, x2, x3.trans hk1.symm, x4.trans hrc1.symm⟩)
+    refine ⟨d', ?_, hwf', hk'.trans hk1, hrc'.trans hrc1, ?_, ?_⟩
+    · rw [List.foldlM_cons, h1]; exact h'
+    · rw [habs', habs1]; rfl
+    · intro hc; exact hcells' (hcells1 hc (toDict_cells b hbwf hbc))
+
+/-- **T07_merge.** `ska merge first rest…` on well-formed files with the same k and strand mode
+writes exactly `first ++ rest₁ ++ rest₂ ++ …` (left fold of column concatenation, names in argument
+order, rows in first-seen order). -/
+theorem T07_merge (W : Nat) (first : Arr) (rest : List Arr) (hf : first.WF) (hcf : first.CellsGE)
+    (hall : ∀ b ∈ rest, b.WF ∧ b.CellsGE ∧ b.k = first.k ∧ b.rc = first.rc) :
+    ∃ r, Modes.merge W first rest = .ok r
+      ∧ r.abs = (rest.map Arr.abs).foldl Table.concat first.abs
+      ∧ r.names = first.names ++ (rest.map (·.names)).flatten
+      ∧ GoodOutput r ∧ r.k = first.k ∧ r.rc = first.rc ∧ r.kBits = W := by
+  obtain ⟨d', h', hwf', hk', hrc', habs', hcells'⟩ :=
+    foldlM_extend rest first.toDict (toDict_wf first hf) hall
+  rw [toDict_abs first hf hcf] at habs'
+  have habs : (Arr.ofDict W d').abs = (rest.map Arr.abs).foldl Table.concat first.abs := by
+    rw [ofDict_abs, habs']
+  refine ⟨Arr.ofDict W d', ?_, habs, ?_, goodOutput_ofDict W d' hwf' (hcells' (toDict_cells first hf hcf)),
+    hk', hrc', rfl⟩
+  · unfold Modes.merge; rw [h']; rfl
+  · have : (Arr.ofDict W d').names = (Arr.ofDict W d').abs.names := rfl
+    rw [this, habs]
+    have hn : ∀ (ts : List Table) (t : Table),
+        (ts.foldl Table.concat t).names = t.names ++ (ts.map (·.names)).flatten := by
+      intro ts
+      induction ts with
+      | nil => intro t; simp
+      | cons u ts ih => intro t; simp [ih, Table.concat_names, List.append_assoc]
+    rw [hn]
+    simp [Arr.abs, List.map_map, Function.comp_def]
+
+/-- `RowsPresent` is kept by a merge -/
+theorem T07_merge_rowsPresent (W : Nat) (first : Arr) (rest : List Arr) (hf : first.WF) (hcf : first.CellsGE)
+    (hall : ∀ b ∈ rest, b.WF ∧ b.CellsGE ∧ b.k = first.k ∧ b.rc = first.rc)
+    (hpf : first.RowsPresent) (hpr : ∀ b ∈ rest, b.RowsPresent) :
+    ∀ r, Modes.merge W first rest = .ok r → r.RowsPresent := by
+  intro r hr
+  obtain ⟨r', hr', habs, _, hgood, _⟩ := T07_merge W first rest hf hcf hall
+  rw [hr] at hr'
+  cases hr'
+  rw [Arr.rowsPresent_iff hgood.wf.lenV, habs]
+  have key : ∀ (ts : List Arr) (t : Table), (∀ b ∈ ts, b.WF ∧ b.RowsPresent) → Table.WF t → t.RowsPresent →
+      Table.WF ((ts.map Arr.abs).foldl Table.concat t) ∧ ((ts.map Arr.abs).foldl Table.concat t).RowsPresent := by
+    intro ts
+    induction ts with
+    | nil => intro t _ h1 h2; exact ⟨h1, h2⟩
+    | cons u ts ih =>
+      intro t hts h1 h2
+      obtain ⟨hu1, hu2⟩ := hts u (List.mem_cons_self ..)
+      simp only [List.map_cons, List.foldl_cons]
+      apply ih _ (fun b hb => hts b (List.mem_cons_of_mem _ hb))
+      · exact Table.concat_wf _ _ h1 (Arr.abs_wf hu1)
+      · exact Table.concat_rowsPresent _ _ h1.2 (Arr.abs_wf hu1).2 h2 ((Arr.rowsPresent_iff hu1.lenV).mp hu2)
+  exact (key rest first.abs (fun b hb => ⟨(hall b hb).1, hpr b hb⟩) (Arr.abs_wf hf)
+    ((Arr.rowsPresent_iff hf.lenV).mp hpf)).2
+
+/-! ### refusal -/
+
+theorem extend_ok_of_match (d o : MDict) (hk : o.k = d.k) (hrc : o.rc = d.rc) :
+    ∃ d', d.extend o = .ok d' ∧ d'.k = d.k ∧ d'.rc = d.rc := by
+  unfold MDict.extend
+  simp only [hk, hrc, bne_self_eq_false, Bool.false_eq_true, if_false]
+  exact ⟨_, rfl, rfl, rfl⟩
+
+theorem foldlM_extend_error (rest : List Arr) (d : MDict)
+    (h : ∃ b ∈ rest, b.k ≠ d.k ∨ b.rc ≠ d.rc) :
+    ∃ e, rest.foldlM (fun d a => d.extend a.toDict) d = .error e := by
+  induction rest generalizing d with
+  | nil => obtain ⟨b, hb, _⟩ := h; cases hb
+  | cons c rest ih =>
+    rw [List.foldlM_cons]
+    by_cases hc : c.k = d.k ∧ c.rc = d.rc
+    · obtain ⟨d1, h1, hk1, hrc1⟩ := extend_ok_of_match d c.toDict hc.1 hc.2
+      rw [h1]
+      apply ih d1
+      obtain ⟨b, hb, hne⟩ := h
+      rcases List.mem_cons.mp hb with rfl | hb
+      · rcases hne with h | h
+        · exact absurd hc.1 h
+        · exact absurd hc.2 h
+      · exact ⟨b, hb, by rw [hk1, hrc1]; exact hne⟩
+    · have : c.toDict.k ≠ d.k ∨ c.toDict.rc ≠ d.rc := by
+        by_cases hk : c.k = d.k
+        · exact Or.inr (fun x => hc ⟨hk, x⟩)
+        · exact Or.inl hk
+      obtain ⟨e, he⟩ := T07_refuse d c.toDict this
+      exact ⟨e, by rw [he]; rfl⟩
+
+/-- **T07_refuse_merge.** one input with another k or strand mode: the whole merge is an error and no
+output is written (no hypothesis on the shape of the files) -/
+theorem T07_refuse_merge (W : Nat) (first : Arr) (rest : List Arr)
+    (h : ∃ b ∈ rest, b.k ≠ first.k ∨ b.rc ≠ first.rc) :
+    ∃ e, Modes.merge W first rest = .error e := by
+  obtain ⟨e, he⟩ := foldlM_extend_error rest first.toDict h
+  exact ⟨e, by unfold Modes.merge; rw [he]; rfl⟩
+
+/-- `merge` succeeds exactly when all k and strand modes agree -/
+theorem T07_merge_ok_iff (W : Nat) (first : Arr) (rest : List Arr) :
+    (∃ r, Modes.merge W first rest = .ok r) ↔ ∀ b ∈ rest, b.k = first.k ∧ b.rc = first.rc := by
+  constructor
+  · rintro ⟨r, hr⟩ b hb
+    by_cases hc : b.k = first.k ∧ b.rc = first.rc
+    · exact hc
+    · have : b.k ≠ first.k ∨ b.rc ≠ first.rc := by
+        by_cases hk : b.k = first.k
+        · exact Or.inr (fun x => hc ⟨hk, x⟩)
+        · exact Or.inl hk
+      obtain ⟨e, he⟩ := T07_refuse_merge W first rest ⟨b, hb, this⟩
+      rw [hr] at he; cases he
+  · intro hall
+    have key : ∀ (rest : List Arr) (d : MDict), (∀ b ∈ rest, b.k = d.k ∧ b.rc = d.rc) →
+        ∃ d', rest.foldlM (fun d a => d.extend a.toDict) d = .ok d' := by
+      intro rest
+      induction rest with
+      | nil => intro d _; exact ⟨d, rfl⟩
+      | cons c rest ih =>
+        intro d hd
+        obtain ⟨h1, h2⟩ := hd c (List.mem_cons_self ..)
+        obtain ⟨d1, e1, hk1, hrc1⟩ := extend_ok_of_match d c.toDict h1 h2
+        obtain ⟨d', e'⟩ := ih d1 (fun b hb => by
+          obtain ⟨x, y⟩ := hd b (List.mem_cons_of_mem _ hb)
+          exact ⟨x.trans hk1.symm, y.trans hrc1.symm⟩)
+        exact ⟨d', by rw [List.foldlM_cons, e1]; exact e'⟩
+    obtain ⟨d', e'⟩ := key rest first.toDict hall
+    exact ⟨Arr.ofDict W d', by unfold Modes.merge; rw [e']; rfl⟩
+
+/-! ### associativity at the table level -/
+
+/-- **T07_assoc.** column concatenation is associative on the nose — same names, same row order, same
+cells — for arbitrary tables (no well-formedness needed) -/
+theorem T07_assoc (A B C : Table) : (A.concat B).concat C = A.concat (B.concat C) :=
+  Table.concat_assoc A B C
+
+theorem T07_assoc_equiv (A B C : Table) : ((A.concat B).concat C).Equiv (A.concat (B.concat C)) :=
+  Table.Equiv.of_eq (T07_assoc A B C)
+
+theorem T07_assoc_lookup (A B C : Table) (k : Nat) :
+    ((A.concat B).concat C).lookupRow k = (A.concat (B.concat C)).lookupRow k := by
+  rw [T07_assoc]
+
+/-- the cells of a concatenation, key by key: shared keys get both rows, a key only in `A` gets
+`B.width` gaps appended, a key only in `B` gets `A.width` gaps prepended, other keys are absent -/
+theorem T07_concat_cells (A B : Table) (k : Nat) :
+    (∀ ra rb, A.lookupRow k = some ra → B.lookupRow k = some rb → (A.concat B).lookupRow k = some (ra ++ rb))
+    ∧ (∀ ra, A.lookupRow k = some ra → B.lookupRow k = none →
+        (A.concat B).lookupRow k = some (ra ++ List.replicate B.width gap))
+    ∧ (∀ rb, A.lookupRow k = none → B.lookupRow k = some rb →
+        (A.concat B).lookupRow k = some (List.replicate A.width gap ++ rb))
+    ∧ (A.lookupRow k = none → B.lookupRow k = none → (A.concat B).lookupRow k = none) := by
+  have hin : ∀ (T : Table) r, T.lookupRow k = some r → k ∈ T.keys := fun T r h =>
+    Assoc.mem_keys_of_mem_J (Assoc.mem_of_lookup_J h)
+  have hout : ∀ (T : Table), T.lookupRow k = none → k ∉ T.keys := fun T h => Assoc.lookup_eq_none_iff_J.mp h
+  refine ⟨?_, ?_, ?_, ?_⟩
+  · intro ra rb h1 h2
+    rw [Table.concat_lookup, if_pos (Or.inl (hin A ra h1)), h1, h2]; rfl
+  · intro ra h1 h2
+    rw [Table.concat_lookup, if_pos (Or.inl (hin A ra h1)), h1, h2]; rfl
+  · intro rb h1 h2
+    rw [Table.concat_lookup, if_pos (Or.inr (hin B rb h2)), h1, h2]; rfl
+  · intro h1 h2
+    rw [Table.concat_lookup, if_neg (fun h => h.elim (hout A h1) (hout B h2))]
+
+/-- well-formed tables stay well-formed -/
+theorem T07_concat_wf (A B : Table) (hA : Table.WF A) (hB : Table.WF B) : Table.WF (A.concat B) :=
+  Table.concat_wf A B hA hB
+
+/-- merging in two steps or in one gives the same file content -/
+theorem T07_merge_assoc (W : Nat) (a b c : Arr) (ha : a.WF) (hb : b.WF) (hc : c.WF)
+    (hca : a.CellsGE) (hcb : b.CellsGE) (hcc : c.CellsGE)
+    (hk1 : b.k = a.k) (hr1 : b.rc = a.rc) (hk2 : c.k = a.k) (hr2 : c.rc = a.rc) :
+    ∃ r bc r', Modes.merge W a [b, c] = .ok r ∧ Modes.merge W b [c] = .ok bc ∧ Modes.merge W a [bc] = .ok r'
+      ∧ r.abs = r'.abs := by
+  obtain ⟨r, h1, habs1, _⟩ := T07_merge W a [b, c] ha hca (by
+    intro x hx
+    simp only [List.mem_cons, List.not_mem_nil, or_false] at hx
+    rcases hx with rfl | rfl
+    · exact ⟨hb, hcb, hk1, hr1⟩
+    · exact ⟨hc, hcc, hk2, hr2⟩)
+  obtain ⟨bc, h2, habs2, _, hg2, hk3, hr3, _⟩ := T07_merge W b [c] hb hcb (by
+    intro x hx
+    simp only [List.mem_cons, List.not_mem_nil, or_false] at hx
+    subst hx
+    exact ⟨hc, hcc, hk2.trans hk1.symm, hr2.trans hr1.symm⟩)
+  obtain ⟨r', h3, habs3, _⟩ := T07_merge W a [bc] ha hca (by
+    intro x hx
+    simp only [List.mem_cons, List.not_mem_nil, or_false] at hx
+    subst hx
+    exact ⟨hg2.wf, hg2.cellsGE, hk3.trans hk1, hr3.trans hr1⟩)
+  refine ⟨r, bc, r', h1, h2, h3, ?_⟩
+  rw [habs1, habs3]
+  simp only [List.map_cons, List.map_nil, List.foldl_cons, List.foldl_nil] at habs2 ⊢
+  rw [habs2]
+  exact T07_assoc _ _ _
+
+/-! ### non-vacuity and the `NoZero` counterexample -/
+
+def exA : Arr := { k := 3, rc := true, names := ["s1", "s2"], kmers := [5, 7, 9], variants := [[65, 67], [45, 71], [84, 84]], counts := [2, 1, 2], kBits := 64 }
+def exB : Arr := { k := 3, rc := true, names := ["t1"], kmers := [9, 2, 5], variants := [[65], [67], [71]], counts := [1, 1, 1], kBits := 64 }
+def exC : Arr := { k := 3, rc := true, names := ["u1", "u2"], kmers := [1, 2, 7], variants := [[65, 45], [67, 67], [45, 71]], counts := [1, 2, 1], kBits := 64 }
+def exK : Arr := { exB with k := 5 }
+
+example : exA.WF ∧ exB.WF ∧ exC.WF := by decide
+example : exA.CellsGE ∧ exB.CellsGE ∧ exC.CellsGE := by unfold Arr.CellsGE; decide
+example : exA.RowsPresent ∧ exB.RowsPresent ∧ exC.RowsPresent := by unfold Arr.RowsPresent; decide
+
+example : (Modes.merge 64 exA [exB, exC]).toOption = some
+    { k := 3, rc := true, names := ["s1", "s2", "t1", "u1", "u2"], kmers := [5, 7, 9, 2, 1],
+      variants := [[65, 67, 71, 45, 45], [45, 71, 45, 45, 71], [84, 84, 65, 45, 45],
+                   [45, 45, 67, 67, 67], [45, 45, 45, 65, 45]],
+      counts := [3, 2, 3, 3, 1], kBits := 64 } := by decide
+
+example : (exA.abs.concat exB.abs).concat exC.abs =
+    { names := ["s1", "s2", "t1", "u1", "u2"],
+      rows := [(5, [65, 67, 71, 45, 45]), (7, [45, 71, 45, 45, 71]), (9, [84, 84, 65, 45, 45]),
+               (2, [45, 45, 67, 67, 67]), (1, [45, 45, 45, 65, 45])] } := by decide
+
+example : (Modes.merge 64 exA [exB, exK]).toOption = none := by decide
+
+/-- a file with a stored byte in 1..44 (here 10) satisfies `WF` and `NoZero`, yet merging rewrites
+that cell to '-': `NoZero` alone does not give the refinement -/
+def exBad : Arr := { k := 3, rc := true, names := ["s1"], kmers := [5], variants := [[10]], counts := [1], kBits := 64 }
+
+theorem T07_noZero_insufficient :
+    exBad.WF ∧ exBad.NoZero ∧ exB.WF ∧ exB.NoZero ∧ exBad.k = exB.k ∧ exBad.rc = exB.rc ∧
+    ∃ d, exBad.toDict.extend exB.toDict = .ok d ∧ (Arr.ofDict 64 d).abs ≠ exBad.abs.concat exB.abs ∧
+      (Arr.ofDict 64 d).abs.lookupRow 5 = some [45, 71] ∧ (exBad.abs.concat exB.abs).lookupRow 5 = some [10, 71] := by
+  refine ⟨by decide, by unfold Arr.NoZero; decide, by decide, by unfold Arr.NoZero; decide, rfl, rfl, ?_⟩
+  obtain ⟨d, hd, _⟩ := extend_ok_of_match exBad.toDict exB.toDict rfl rfl
+  refine ⟨exBad.toDict.extendResult exB.toDict, ?_, by decide, by decide, by decide⟩
+  exact extend_eq _ _ (toDict_wf _ (by decide)) (toDict_wf _ (by decide)) rfl rfl
 
 end SkaModel.Props.C07
